@@ -163,7 +163,7 @@ func build(p *propCfg, eng engineKind) (scratch string) {
 		// export files for state the harness must reset between runs (scratch copy only)
 		exps, _ := filepath.Glob(filepath.Join(verifDir, "harness", "exports", "*_verif_export.go.txt"))
 		for _, e := range exps {
-			pkg := strings.TrimSuffix(filepath.Base(e), "_verif_export.go.txt")
+			pkg := strings.ReplaceAll(strings.TrimSuffix(filepath.Base(e), "_verif_export.go.txt"), "__", "/")
 			b, _ := os.ReadFile(e)
 			if err := os.WriteFile(filepath.Join(scratch, "ecal", pkg, "verif_export.go"), b, 0644); err != nil {
 				trouble("writing export file: %v", err)
